@@ -1010,6 +1010,9 @@ func (store *KeyStore) GetPoisonSymmetricKey() ([]byte, error) {
 
 // SaveDataEncryptionKeys save or overwrite decryption keypair for client id
 func (store *KeyStore) SaveDataEncryptionKeys(id []byte, keypair *keys.Keypair) error {
+	if !keystore.ValidateID(id) {
+		return keystore.ErrInvalidClientID
+	}
 	filename := GetServerDecryptionKeyFilename(id)
 
 	keyContext := keystore.NewClientIDKeyContext(keystore.PurposeStorageClientPrivateKey, id)
@@ -1081,6 +1084,9 @@ func (store *KeyStore) GetHMACSecretKey(id []byte) ([]byte, error) {
 
 // GenerateHmacKey key for hmac calculation in in folder for private keys
 func (store *KeyStore) GenerateHmacKey(id []byte) error {
+	if !keystore.ValidateID(id) {
+		return keystore.ErrInvalidClientID
+	}
 	log.Debugln("Generate HMAC")
 	key, err := keystore.GenerateSymmetricKey()
 	if err != nil {
@@ -1214,6 +1220,9 @@ func (store *KeyStore) loadKeyAndCache(filename string, keyContext keystore.KeyC
 
 // GenerateClientIDSymmetricKey generate symmetric key for specified client id
 func (store *KeyStore) GenerateClientIDSymmetricKey(id []byte) error {
+	if !keystore.ValidateID(id) {
+		return keystore.ErrInvalidClientID
+	}
 	keyName := getClientIDSymmetricKeyName(id)
 
 	keyContext := keystore.NewClientIDKeyContext(keystore.PurposeStorageClientSymmetricKey, id)
